@@ -196,16 +196,33 @@ class _Hist:
         cls.step, cls.directive, cls.calls = k, directive, 0
 
 
+class _Cfg:
+    """coil count override and `nn.Module.training` for the modules the site checks build (set by `configure`)"""
+    coils = None
+    mode = "train"
+
+
+def configure(coils=None, mode="train"):
+    _Cfg.coils, _Cfg.mode = coils, mode
+
+
+def _apply_mode(obj):
+    if isinstance(obj, torch.nn.Module):
+        obj.train(_Cfg.mode == "train")
+    return obj
+
+
 def persist(tag: str, build):
     """`build() -> (module, recorder or None)`; one instance per history"""
     if not _Hist.active:
-        return build()
+        obj, rec = build()
+        return _apply_mode(obj), rec
     if tag not in _Hist.models:
         _Hist.models[tag] = build()
     obj, rec = _Hist.models[tag]
     if rec is not None:
         rec.events = []
-    return obj, rec
+    return _apply_mode(obj), rec
 
 
 def _fresh_problem(seed: int, shape, mask_kind, extra_dims):
@@ -226,6 +243,8 @@ def _fresh_problem(seed: int, shape, mask_kind, extra_dims):
 
 def problem(seed: int, shape, mask_kind="random", extra_dims=()):
     """random float32 problem: S, y (masked), mask of shape (N, 1, [1,] H, W, 1)"""
+    if _Cfg.coils is not None:
+        shape = (shape[0], _Cfg.coils) + tuple(shape[2:])
     if not _Hist.active:
         S, yfull, m, g = _fresh_problem(seed, shape, mask_kind, extra_dims)
         return S, torch.where(m == 0, ZERO, yfull), m, g
@@ -258,11 +277,20 @@ HISTORY_SCRIPTS = [
 ]
 
 
-def run_site_history(name: str, seed: int, centered: bool, script, mask_kinds=None):
+def run_site(name: str, seed: int, centered: bool, mask_kind: str, coils=None, mode="train"):
+    configure(coils, mode)
+    try:
+        return dict(SITE_CHECKS)[name](seed, centered, mask_kind)
+    finally:
+        configure()
+
+
+def run_site_history(name: str, seed: int, centered: bool, script, mask_kinds=None, coils=None, mode="train"):
     """run one site check `len(script)` times on persistent instances -> (relations checked, fails, failing step)"""
     fn = dict(SITE_CHECKS)[name]
     total, fails = 0, []
     _Hist.begin()
+    configure(coils, mode)
     try:
         for k, d in enumerate(script):
             _Hist.next(k, d)
@@ -273,6 +301,7 @@ def run_site_history(name: str, seed: int, centered: bool, script, mask_kinds=No
                 return total, [(key, f"[history step {k} of {script}: {d}] {what}") for key, what in f], k
     finally:
         _Hist.end()
+        configure()
     return total, fails, None
 
 
